@@ -227,3 +227,113 @@ Proof.
     intros F. vm_compute in F. destruct F as (_ & ((F & _) & _) & _). discriminate F.
 Qed.
 Print Assumptions C03_empty_line_swallowed_refuted.
+
+(** ==========================================================================================
+    Part 4: BOTTOM ALIGNMENT at screen level - either alignment, alignment changes included
+    (model/MultiScreenBottom.v, proofs/MultiScreenBottomProofs.v; the ghost and the proviso
+    FitsAllB are described above C02_screen_bottom_partial in props/C02.v).
+    After every history: the printed lines ([hist_log], read off the calls: println of the
+    MultiProgress, println of a member, every line a suspend closure writes) are exactly the
+    [LLine] entries of the ghost log, in emission order, each exactly once; the ROWS of that log
+    (the wrapped lines, and between them the blank GAP rows - [LGap k] - that suspend leaves under
+    Bottom alignment: clear pads the region with k blank rows, fix 96a75c4 forgets them) are on
+    the terminal directly below [pre] and ABOVE the kept rows, the padding rows and the live rows,
+    whose sizes are the two row counters (zombie_lines_count = |kept|, last_line_count = padding +
+    |live|): everything a later draw erases lies below the log.  In particular the three fixed
+    Bottom-alignment defects are theorems now: println text stays above the padding of a shrunken
+    region (951c29f), an empty frame does not make the region drift into the log (8b11f76), what a
+    suspend closure printed is not erased by the redraw (96a75c4).  The log part needs NO D22
+    exclusion: it holds in the D22 situation as well (the ghost follows the code there).
+    `_partial`: FitsAllB excludes an EMPTY frame under Bottom alignment while the region is as
+    tall as the terminal (see props/C02.v); no I/O faults. *)
+From IndModel Require Import MultiScreenBottom.
+From IndProofs Require Import MultiScreenBottomProofs.
+
+Theorem C03_log_bottom_partial : forall (W H : N) (pre : list (list N)) (s0 : sys) (t0 : term)
+    (h : list (N * op)), 1 <= W -> 1 <= H ->
+  bs_initial s0 -> ready (N.to_nat W) (N.to_nat H) pre t0 -> FitsAllB W H s0 h ->
+  let s := fst (fst (bs_run W H (s0, bghost0, t0) h)) in
+  let g := snd (fst (bs_run W H (s0, bghost0, t0) h)) in
+  let t := snd (bs_run W H (s0, bghost0, t0) h) in
+  log_lines (bg_log g) = hist_log W H s0 h
+  /\ (exists k, screen (N.to_nat W) t
+        = map (pad (N.to_nat W))
+              (pre ++ log_rows (N.to_nat W) (bg_log g) ++ bg_kept g
+                   ++ repeat [] (N.to_nat (bg_pad g)) ++ bg_live g)
+          ++ repeat (repeat SP (N.to_nat W)) k)
+  /\ length (bg_kept g) = N.to_nat (ms_zombie_lines (s_mp s))
+  /\ (N.to_nat (bg_pad g) + length (bg_live g))%nat = N.to_nat (target_n (ms_target (s_mp s)))
+  /\ ms_orphans (s_mp s) = [].
+Proof. exact c03_log_bottom. Qed.
+Print Assumptions C03_log_bottom_partial.
+
+(** ... after EVERY call of the history *)
+Theorem C03_log_bottom_every_op_partial : forall (W H : N) (pre : list (list N)) (s0 : sys) (t0 : term)
+    (h1 h2 : list (N * op)), 1 <= W -> 1 <= H ->
+  bs_initial s0 -> ready (N.to_nat W) (N.to_nat H) pre t0 -> FitsAllB W H s0 (h1 ++ h2) ->
+  let s := fst (fst (bs_run W H (s0, bghost0, t0) h1)) in
+  let g := snd (fst (bs_run W H (s0, bghost0, t0) h1)) in
+  let t := snd (bs_run W H (s0, bghost0, t0) h1) in
+  log_lines (bg_log g) = hist_log W H s0 h1
+  /\ (exists k, screen (N.to_nat W) t
+        = map (pad (N.to_nat W))
+              (pre ++ log_rows (N.to_nat W) (bg_log g) ++ bg_kept g
+                   ++ repeat [] (N.to_nat (bg_pad g)) ++ bg_live g)
+          ++ repeat (repeat SP (N.to_nat W)) k)
+  /\ length (bg_kept g) = N.to_nat (ms_zombie_lines (s_mp s))
+  /\ (N.to_nat (bg_pad g) + length (bg_live g))%nat = N.to_nat (target_n (ms_target (s_mp s)))
+  /\ ms_orphans (s_mp s) = [].
+Proof. exact c03_log_bottom_every_prefix. Qed.
+Print Assumptions C03_log_bottom_every_op_partial.
+
+(* ------------------------------------------------------------------ non-vacuity (Bottom alignment) *)
+(** 3 bars A B C on a 4 x 10 terminal below an earlier shell line "$", Bottom alignment.
+    [bl_println] = the witness of 951c29f (remove(a); b.finish_and_clear(); c.println("x");
+    c.tick()) followed by the witness of 96a75c4 (suspend writing "s"; tick);
+    [bl_d22] = a println, then the D22 situation (b.finish_and_clear(); a.finish(); drop(a);
+    c.tick()): A's final frame is lost there (C04 / C02_kept_bottom_D22_refuted), the log is not *)
+Definition bl_bar (c : N) : bar := new_bar (Some 10) FAndLeave [PLit [c]; PPos] THidden 0.
+Definition bl_s0 : sys :=
+  mksys [bl_bar 65; bl_bar 66; bl_bar 67] (new_ms (TTerm (new_ttarget None 0))) 0.
+Definition bl_t0 : term := run_ops 4 10 term_init [TLine [36]].
+Definition bl_setup : list (N * op) :=
+  [(0, OSetAlign Bottom); (1, OInsert BEnd 0); (2, OInsert BEnd 1); (3, OInsert BEnd 2);
+   (4, OTick 0); (5, OTick 1); (6, OTick 2)].
+Definition bl_println : list (N * op) :=
+  bl_setup ++ [(7, ORemove 0); (8, OFinish 1 FAndClear); (9, OPrintln 2 [120]); (10, OTick 2);
+               (11, OMSuspend [[115]]); (12, OTick 2)].
+Definition bl_d22 : list (N * op) :=
+  bl_setup ++ [(7, OMPrintln [108]); (8, OFinish 1 FAndClear); (9, OFinish 0 FAndLeave); (10, ODrop 0);
+               (11, OTick 2)].
+
+Example C03_log_bottom_hypotheses_satisfiable :
+  bs_initial bl_s0 /\ ready 4 10 [[36]] bl_t0
+  /\ FitsAllB 4 10 bl_s0 bl_println /\ FitsAllB 4 10 bl_s0 bl_d22
+  /\ MultiSpec.hist_ok 4 10 nofaults bl_s0 bl_println /\ MultiSpec.hist_ok 4 10 nofaults bl_s0 bl_d22.
+Proof.
+  split.
+  - split.
+    + intros b. unfold get_bar, nthN. destruct (N.to_nat b) as [|[|[|[|n]]]]; exact I.
+    + eexists. repeat split. intros i ls Hi. unfold nthN in Hi. cbn in Hi.
+      destruct (N.to_nat i); discriminate Hi.
+  - split; [exact (ready_start 4 10 [[36]] 0 1 ltac:(lia))|].
+    repeat (split; [vm_compute; repeat (split || intro)|]). vm_compute; repeat (split || intro).
+Qed.
+
+Example C03_log_bottom_example :
+  let st1 := bs_run 4 10 (bl_s0, bghost0, bl_t0) (firstn 11 bl_println) in
+  let st2 := bs_run 4 10 (bl_s0, bghost0, bl_t0) bl_println in
+  let st3 := bs_run 4 10 (bl_s0, bghost0, bl_t0) bl_d22 in
+  (* after c.println("x"); c.tick(): "x" above the padding row *)
+  hist_log 4 10 bl_s0 (firstn 11 bl_println) = [[120]]
+  /\ snd (fst st1) = mkbg [LLine [120]] [] 1 [[67;48]]
+  /\ screen 4 (snd st1) = map (pad 4) [[36]; [120]; []; [67;48]]
+  (* after the suspend and one more tick: "x", the gap of 2 rows, "s", the bar *)
+  /\ hist_log 4 10 bl_s0 bl_println = [[120]; [115]]
+  /\ snd (fst st2) = mkbg [LLine [120]; LGap 2; LLine [115]] [] 0 [[67;48]]
+  /\ screen 4 (snd st2) = map (pad 4) [[36]; [120]; []; []; [115]; [67;48]]
+  (* the D22 situation: A's row is gone, the printed line "l" is not *)
+  /\ hist_log 4 10 bl_s0 bl_d22 = [[108]]
+  /\ snd (fst st3) = mkbg [LLine [108]] [[]] 1 [[67;48]]
+  /\ screen 4 (snd st3) = map (pad 4) [[36]; [108]; []; []; [67;48]].
+Proof. vm_compute. repeat split. Qed.
